@@ -14,12 +14,12 @@ Definition expand (body pc : nat) (i : instr) : list micro :=
   | IFetchUpdate a f v so fo => [MBranch a ALoad BNever; MFuLoadPost a f v so fo]
   | IFence o => [MFence o]
   | ILock m => [MBranch m AOpaque BMutexLocked; MLockPost m LMLock]
-  | ITryLock m => [MBranch m AOpaque BNever; MLockPost m LMTry]
+  | ITryLock m => [MBranch m AOpaqueTry BNever; MLockPost m LMTry]
   | IUnlock m => [MUnlock m]
   | IRead r => [MBranch r ARead BRwWrite; MReadPost r false]
   | IWrite r => [MBranch r AWrite BRwAny; MWritePost r false]
-  | ITryRead r => [MBranch r ARead BNever; MReadPost r true]
-  | ITryWrite r => [MBranch r AWrite BNever; MWritePost r true]
+  | ITryRead r => [MBranch r ATryRead BNever; MReadPost r true]
+  | ITryWrite r => [MBranch r ATryWrite BNever; MWritePost r true]
   | IUnread r => [MUnread r]
   | IUnwrite r => [MUnwrite r]
   | IWait c m => [MWait c m]
